@@ -22,9 +22,11 @@ import (
 	"sort"
 	"strings"
 	"sync"
+	"sync/atomic"
 	"time"
 
 	"github.com/algorand/avm-abi/apps"
+	"github.com/algorand/go-deadlock"
 
 	"github.com/algorand/go-algorand/agreement"
 	"github.com/algorand/go-algorand/config"
@@ -52,6 +54,9 @@ var c08ProtoOnce sync.Once
 // lookbacks, fast rewards-rate refresh and payouts disabled (no proposer needed).
 func c08Proto() (protocol.ConsensusVersion, config.ConsensusParams) {
 	c08ProtoOnce.Do(func() {
+		// production nodes run with go-deadlock detection off (config DeadlockDetection);
+		// the detector only costs time here.
+		deadlock.Opts.Disable = true
 		p := config.Consensus[protocol.ConsensusFuture]
 		p.ApprovedUpgrades = map[protocol.ConsensusVersion]uint64{}
 		p.MaxTxnLife = 4
@@ -348,10 +353,22 @@ func c08Fold(prev *c08Ref, d *ledgercore.StateDelta) *c08Ref {
 // ---------------------------------------------------------------------------------
 // the ledger instance
 
+// LRU cache modes. The capacities of the three base caches of accountUpdates are compile
+// time constants (100000/10000/5000 entries, preallocated: ~0.5 s per OpenLedger/reload), so
+// the bulk of the exploration uses c08LRUSmall: the ledger is opened with
+// DisableLedgerLRUCache (no preallocation) and the harness then calls the caches' own
+// init() with capacity 256 — same code paths (read/writePending/flushPendingWrites/write/
+// prune), smaller buffers. c08LRUReal runs the upstream sizes (used for shallow depths).
+const (
+	c08LRUOff = iota
+	c08LRUSmall
+	c08LRUReal
+)
+
 type c08Cfg struct {
 	Name     string
 	Lookback uint64 // config.Local.MaxAcctLookback
-	NoCache  bool   // config.Local.DisableLedgerLRUCache
+	LRU      int
 }
 
 type c08LH struct {
@@ -366,39 +383,78 @@ type c08LH struct {
 	// query universe (grows as blocks mention new things)
 	addrs  []basics.Address
 	addrIn map[basics.Address]bool
+	raddrs []basics.Address // addresses asked for resources: A, B, Z + every address that ever had one
+	raddrIn map[basics.Address]bool
 	cidx   []basics.CreatableIndex
 	cidxIn map[basics.CreatableIndex]bool
 	kvKeys []string
 	kvIn   map[string]bool
 
 	queries int64 // number of lookups issued (evidence)
+
+	// Finding, if set, receives violations of classes that have a dedicated known-finding
+	// key and must not stop the exploration of the instance (see Sweep: cross-type lookups).
+	Finding func(key, msg string)
+	NoXType bool // development switch: do not issue cross-type resource lookups at all
 }
 
 var c08FarFuture = time.Date(2999, 1, 1, 0, 0, 0, 0, time.UTC)
+
+// c08DBSeq makes in-memory database names unique inside the process (SQLite shares an
+// in-memory database between all connections that use the same name).
+var c08DBSeq atomic.Int64
 
 func c08Open(w *c08World, cfg c08Cfg) (*c08LH, error) {
 	lc := config.GetDefaultLocal()
 	lc.Archival = false
 	lc.MaxAcctLookback = cfg.Lookback
-	lc.DisableLedgerLRUCache = cfg.NoCache
+	lc.DisableLedgerLRUCache = cfg.LRU != c08LRUReal
 	lc.CatchpointTracking = -1
+	lc.TxPoolSize = 8 // sizes of the verified-transaction cache (preallocated maps)
+	lc.VerifiedTranscationsCacheSize = 16
 	lc.EnableAccountUpdatesStats = false
 	log := logging.NewLogger()
 	log.SetOutput(io.Discard)
 	log.SetLevel(logging.Error)
-	l, err := OpenLedger(log, "verif-c08", true, ledgercore.InitState{Block: w.genBlock, Accounts: w.genBal.Balances, GenesisHash: w.genHash}, lc)
+	l, err := OpenLedger(log, fmt.Sprintf("verif-c08-%d", c08DBSeq.Add(1)), true, ledgercore.InitState{Block: w.genBlock, Accounts: w.genBal.Balances, GenesisHash: w.genHash}, lc)
 	if err != nil {
 		return nil, err
 	}
-	h := &c08LH{w: w, cfg: cfg, l: l, addrIn: map[basics.Address]bool{}, cidxIn: map[basics.CreatableIndex]bool{}, kvIn: map[string]bool{}}
+	h := &c08LH{w: w, cfg: cfg, l: l, addrIn: map[basics.Address]bool{}, raddrIn: map[basics.Address]bool{}, cidxIn: map[basics.CreatableIndex]bool{}, kvIn: map[string]bool{}}
 	h.ref = []*c08Ref{c08GenesisRef(w)}
 	for _, a := range []basics.Address{w.A, w.B, w.C, w.Z, w.sink, w.pool} {
 		h.addAddr(a)
 	}
+	var gen []basics.Address
+	for a := range w.genBal.Balances {
+		gen = append(gen, a)
+	}
+	sort.Slice(gen, func(i, j int) bool { return bytes.Compare(gen[i][:], gen[j][:]) < 0 })
+	for _, a := range gen {
+		h.addAddr(a)
+	}
+	for _, a := range []basics.Address{w.A, w.B, w.Z} {
+		h.addRAddr(a)
+	}
 	h.addCidx(basics.CreatableIndex(w.genBlock.TxnCounter + 900)) // never created
 	h.addKv(apps.MakeBoxKey(w.genBlock.TxnCounter+900, "nope"))    // never created
 	h.freezeFlushClock()
+	h.enableSmallLRU()
 	return h, nil
+}
+
+// enableSmallLRU: see c08LRUSmall. Called after OpenLedger and after every reloadLedger
+// (both end with caches that were (re)initialised by initializeFromDisk).
+func (h *c08LH) enableSmallLRU() {
+	if h.cfg.LRU != c08LRUSmall {
+		return
+	}
+	au := &h.l.accts
+	au.accountsMu.Lock()
+	au.baseAccounts.init(au.log, 256, 200)
+	au.baseResources.init(au.log, 256, 200)
+	au.baseKVs.init(au.log, 256, 200)
+	au.accountsMu.Unlock()
 }
 
 func (h *c08LH) Close() {
@@ -412,6 +468,12 @@ func (h *c08LH) addAddr(a basics.Address) {
 	if !h.addrIn[a] {
 		h.addrIn[a] = true
 		h.addrs = append(h.addrs, a)
+	}
+}
+func (h *c08LH) addRAddr(a basics.Address) {
+	if !h.raddrIn[a] {
+		h.raddrIn[a] = true
+		h.raddrs = append(h.raddrs, a)
 	}
 }
 func (h *c08LH) addCidx(c basics.CreatableIndex) {
@@ -500,9 +562,11 @@ func (h *c08LH) AddBlock(txs ...*txntest.Txn) (enabled bool, err error) {
 	}
 	for _, rec := range delta.Accts.AssetResources {
 		h.addCidx(basics.CreatableIndex(rec.Aidx))
+		h.addRAddr(rec.Addr)
 	}
 	for _, rec := range delta.Accts.AppResources {
 		h.addCidx(basics.CreatableIndex(rec.Aidx))
+		h.addRAddr(rec.Addr)
 	}
 	for c := range delta.Creatables {
 		h.addCidx(c)
@@ -568,10 +632,24 @@ func (h *c08LH) Flush(upTo basics.Round) (enabled bool, err error) {
 // primes itself); the harness then issues the same flush explicitly so that the resulting
 // state never depends on that clock.
 func (h *c08LH) Reload() error {
+	if h.cfg.LRU == c08LRUSmall {
+		// Upstream re-creates the three caches (maps AND pending-write channels) inside
+		// reloadLedger; with DisableLedgerLRUCache init(0) leaves the receivers untouched, so
+		// the harness-enabled small caches must be dropped here or their stale pending writes
+		// would survive the restart. The replay inside reloadLedger therefore runs with the
+		// caches off (an empty cache is always a legal LRU state); enableSmallLRU follows.
+		au := &h.l.accts
+		au.accountsMu.Lock()
+		au.baseAccounts = lruAccounts{}
+		au.baseResources = lruResources{}
+		au.baseKVs = lruKV{}
+		au.accountsMu.Unlock()
+	}
 	if err := h.l.reloadLedger(); err != nil {
 		return ve.Violationf("C08:reload-error", "reloadLedger failed at latest=%d dbRound=%d: %v", h.Latest(), h.dbRound, err)
 	}
 	h.freezeFlushClock()
+	h.enableSmallLRU()
 	got := h.l.LatestTrackerCommitted()
 	if got != h.dbRound {
 		if got != h.MaxFlush() || got < h.dbRound {
@@ -596,6 +674,27 @@ func (h *c08LH) Reload() error {
 
 func (h *c08LH) wantAcct(r basics.Round, a basics.Address) ledgercore.AccountData {
 	return h.ref[r].acct[a]
+}
+
+var errC08Skipped = fmt.Errorf("skipped: lookupResources asked for")
+
+// c08IsXTypeErr recognises the type-assertion error of the DB readers (sqlitedriver/sql.go,
+// generickv/accounts_reader.go LookupResources).
+func c08IsXTypeErr(err error) bool {
+	return err != nil && strings.Contains(err.Error(), "lookupResources asked for")
+}
+
+// xtype handles an error returned at a served round by a lookup that asks for the asset
+// (application) numbered c of address a while (a, c) is a resource of the other type: the
+// correct answer is "none". This class has its own key so that it can be listed as a
+// known finding without hiding anything else; with a Finding hook the instance goes on.
+func (h *c08LH) xtype(what string, r basics.Round, a basics.Address, c basics.CreatableIndex, db, latest basics.Round, err error) error {
+	msg := fmt.Sprintf("%s(round %d, %x, %d) (db %d, latest %d): id %d is a resource of the other type for this address, the history says \"none\", but the lookup failed: %v (the same lookup succeeds while the row is in the deltas or the LRU cache)", what, r, a[:4], c, db, latest, c, err)
+	if h.Finding != nil {
+		h.Finding("C08:cross-type-lookup", msg)
+		return nil
+	}
+	return ve.Violationf("C08:cross-type-lookup", "%s", msg)
 }
 
 // Sweep issues every lookup of the ledger API for every address / creatable / kv key of the
@@ -669,9 +768,34 @@ func (h *c08LH) Sweep() error {
 				}
 			}
 			// resources
+			if !h.raddrIn[a] {
+				continue
+			}
 			for _, c := range h.cidx {
-				ga, err := l.LookupAsset(r, a, basics.AssetIndex(c))
-				cmp, verr = check(fmt.Sprintf("LookupAsset(%x,%d)", a[:4], c), err)
+				// cross-type question: (a, c) is a resource of the other type at round r.
+				// xAsset: an asset lookup on (a, c) whose ON-DISK row (state at the tracker DB
+				// round) is an application resource; xApp: the converse. Only then can the DB
+				// reader's type assertion fire (known finding C08:cross-type-lookup).
+				_, xAsset := h.ref[db].res[c08ResKey{a, c, basics.AppCreatable}]
+				_, xApp := h.ref[db].res[c08ResKey{a, c, basics.AssetCreatable}]
+				var ga ledgercore.AssetResource
+				var err error
+				if xAsset && h.NoXType {
+					err = errC08Skipped
+				} else {
+					ga, err = l.LookupAsset(r, a, basics.AssetIndex(c))
+				}
+				if xAsset && err != nil && served && c08IsXTypeErr(err) {
+					if err != errC08Skipped {
+						h.queries++
+						if x := h.xtype("LookupAsset", r, a, c, db, latest, err); x != nil {
+							return x
+						}
+					}
+					cmp, verr = false, nil
+				} else {
+					cmp, verr = check(fmt.Sprintf("LookupAsset(%x,%d)", a[:4], c), err)
+				}
 				if verr != nil {
 					return verr
 				}
@@ -682,8 +806,23 @@ func (h *c08LH) Sweep() error {
 						return ve.Violationf("C08:asset-mismatch", "LookupAsset(round %d, %x, %d) (db %d, latest %d) = %s, history says %s", r, a[:4], c, db, latest, gs, ws)
 					}
 				}
-				gp, err := l.LookupApplication(r, a, basics.AppIndex(c))
-				cmp, verr = check(fmt.Sprintf("LookupApplication(%x,%d)", a[:4], c), err)
+				var gp ledgercore.AppResource
+				if xApp && h.NoXType {
+					err = errC08Skipped
+				} else {
+					gp, err = l.LookupApplication(r, a, basics.AppIndex(c))
+				}
+				if xApp && err != nil && served && c08IsXTypeErr(err) {
+					if err != errC08Skipped {
+						h.queries++
+						if x := h.xtype("LookupApplication", r, a, c, db, latest, err); x != nil {
+							return x
+						}
+					}
+					cmp, verr = false, nil
+				} else {
+					cmp, verr = check(fmt.Sprintf("LookupApplication(%x,%d)", a[:4], c), err)
+				}
 				if verr != nil {
 					return verr
 				}
